@@ -89,6 +89,13 @@ CHECKS = {
         technique="constant folding + GF(2^8) algebra; finite-function evaluation; abstract interpretation over GF(2)-affine forms",
         note="trusted: CPython ast, sa/algebra.py GF(256) arithmetic, bytes/int operation models",
         ref="DESIGN.md §3 C11"),
+    "C13": dict(
+        text="Static: a symbolic well-formed 72-octet frame (576 atoms under affine well-formedness constraints) is decoded by the real from_ipsc_bytes and by from_kaitai on the object produced by the generated Kaitai parser's own _read "
+             "(parser source read as data, stream = cursor over the same atoms); all attributes must be equal bit forms, ids/colour/sequence the bits the frame encodes, as_ipsc_bytes of either object must reproduce all 576 forms, "
+             "and Burst.from_hytera_ipsc must build the same burst from either input on each of the slot-type paths.",
+        technique="abstract interpretation over GF(2)-affine bit forms of three sibling implementations on one symbolic input (cross-checking siblings); affine path constraints for well-formedness",
+        note="trusted: model of the five KaitaiStream read primitives; Burst constructors stubbed in the from_hytera_ipsc rule (C01); well-formedness = fixed header, replicated colour nibble, zero pad octets, byte-palindromic codes (checked)",
+        ref="DESIGN.md §3 C13"),
     "C17": dict(
         text="Static: every path of the real HSTRP and RRS datagram_received (18 + 65 paths) is enumerated by abstract interpretation with the decoder replaced by 'raises | None | HSTRP with symbolic type bits, S/N, payload kind' "
              "and the transport as an effect-recording stub; hstrp_send_ack/heartbeat/rrs_confirm/deepcopy/as_bytes are interpreted for real, so each answer's bytes are bit forms over the request's atoms. Rules over (fixed type bits, effects, final state): "
